@@ -301,6 +301,9 @@ def r6_containment(run, F):
 
 def check(run):
     F = run.facts("B")
+    # E380 (a word larger than declared) is decided from the size model of align_struct (shared with C10.R2)
+    from props import c10 as _c10
+    _c10.r2b_member_padding(run, F)
     r1_order(run, F)
     r2_legality(run, F)
     r3_extern(run, F)
